@@ -285,3 +285,16 @@ func mustJSON(v any) []byte {
 // Subcommands lets checks register extra internal sub-commands of the binary
 // (e.g. the C18 schedule explorer's child processes).
 var Subcommands = map[string]func(args []string) int{}
+
+// StartWatchdog / WatchdogBegin / WatchdogEnd expose the per-call hang watchdog to custom explorers
+// (history search, schedule search): a single step running longer than HangSeconds kills the process
+// with a VERIF-DEAD marker on stderr.
+func StartWatchdog() { startWatchdog() }
+
+func WatchdogBegin(what string, idx uint64) {
+	wdScope.Store(what)
+	wdIdx.Store(idx)
+	wdStart.Store(time.Now().UnixNano())
+}
+
+func WatchdogEnd() { wdStart.Store(0) }
